@@ -244,12 +244,19 @@ func (its *PushPullHandler) reserveUpdateSnapshot(ctx iface.OrdaContext) error {
 }
 
 func (its *PushPullHandler) commitToMongoDB() errors.OrdaError {
+	committedEnd := its.datatypeDoc.Sseq.End
 	if !its.isReadOnly { // a read-only request pushes nothing: the end of the log does not move
 		its.datatypeDoc.Sseq.End = its.currentCP.Sseq
 	}
 	its.resPushPullPack.CheckPoint = its.currentCP
 	its.subClientDoc.UpdateAt()
 	if len(its.pushingOperations) > 0 {
+		// The datatype document is the commit point of a push. Operation documents beyond its end of log
+		// are leftovers of a push that failed between its two writes: they were never acknowledged, and
+		// their ids are the ones this push is about to use.
+		if err := its.managers.Mongo.DeleteOperationsAfter(its.ctx, its.DUID, committedEnd); err != nil {
+			return errors.PushPullAbortionOfServer.New(its.ctx.L(), err.Error())
+		}
 		if err := its.managers.Mongo.InsertOperations(its.ctx, its.pushingOperations); err != nil {
 			return errors.PushPullAbortionOfServer.New(its.ctx.L(), err.Error())
 		}
@@ -276,7 +283,8 @@ func (its *PushPullHandler) pullOperations() errors.OrdaError {
 	}
 	sseqBegin := its.gotPushPullPack.CheckPoint.Sseq + 1
 	if its.datatypeDoc.Sseq.Begin <= sseqBegin && !its.gotOption.HasSnapshotBit() {
-		opList, sseqList, err := its.managers.Mongo.GetOperations(its.ctx, its.DUID, sseqBegin, constants.InfinitySseq)
+		// only what is committed (up to the recorded end of the log) is handed out
+		opList, sseqList, err := its.managers.Mongo.GetOperations(its.ctx, its.DUID, sseqBegin, its.datatypeDoc.Sseq.End)
 		if err != nil {
 			return errors.PushPullAbortionOfServer.New(its.ctx.L(), err.Error())
 		}
